@@ -660,6 +660,20 @@ func sprintfArgs(i *interpreter, list value) ([]any, bool) {
 }
 
 func fmtSprintf(fr *frame, a []value) value {
+	// fmt.Sprintf("%x", hash.Sum(nil)) of the MD5 model
+	if f, ok := a[0].(string); ok && f == "%x" {
+		if l := a[1].([]value); len(l) == 1 {
+			if e, ok := l[0].(iface); ok {
+				if sl, ok := e.v.([]value); ok && len(sl) == 1 {
+					if n, ok := sl[0].(*native); ok {
+						if s, ok := n.v.(*md5sum); ok {
+							return s.hex
+						}
+					}
+				}
+			}
+		}
+	}
 	args, sym := sprintfArgs(fr.i, a[1])
 	f, ok := a[0].(string)
 	if !ok {
